@@ -106,10 +106,22 @@ def check_recursion_args(ctx, P, rule, deleg):
             inserts = [(bb, t) for (bb, t, ai) in muts if callee_name(t) == "std::collections::HashMap::insert" and ai == 0]
             others = [(bb, t) for (bb, t, ai) in muts if not (callee_name(t) == "std::collections::HashMap::insert" and ai == 0)]
             detail = "fresh map: %s, %d insert(s), %d other mutation(s)" % (fresh, len(inserts), len(others))
+            pair = None
             if fresh and len(inserts) == 1 and not others:
-                ib, it = inserts[0]
-                kroots = root_ids(b, it["args"][1])
-                vleaves = b.trace(it["args"][2])
+                pair = (inserts[0][1]["args"][1], inserts[0][1]["args"][2], inserts[0][1])
+            elif d and d.kind == "call" and callee_name(d.node) in ("std::convert::From::from", "std::iter::FromIterator::from_iter") and not muts \
+                    and (d.node.get("generics") or [""])[0].startswith("std::collections::HashMap<"):
+                # HashMap::from([(key, value)]): an array literal with exactly one pair
+                al = b.trace(d.node["args"][0])
+                if len(al) == 1 and al[0].kind == "agg" and al[0].data[2].get("agg") == "array" and len(al[0].data[2]["ops"]) == 1:
+                    tl = b.trace(al[0].data[2]["ops"][0])
+                    if len(tl) == 1 and tl[0].kind == "agg" and tl[0].data[2].get("agg") == "tuple" and len(tl[0].data[2]["ops"]) == 2:
+                        pair = (tl[0].data[2]["ops"][0], tl[0].data[2]["ops"][1], d.node)
+                        detail = "map built from a one-pair array literal"
+            if pair is not None:
+                it = pair[2]
+                kroots = root_ids(b, pair[0])
+                vleaves = b.trace(pair[1])
                 val_ok = bool(vleaves) and all(lf.kind == "call" and lf.data[0] == P.gate[0] and
                                                lf.path == P.gate_leaf_path(fld("keys"), ELEM, F1) and "HashMap::get" in lf.via for lf in vleaves)
                 # the get() key must be the same key id
@@ -122,7 +134,7 @@ def check_recursion_args(ctx, P, rule, deleg):
                 key_ok = bool(key_roots) and kroots == key_roots
                 ok1 = val_ok and get_key_ok and key_ok
                 detail += "; inserted key <- %s (filed-under key: %s); value <- %s (layout.keys.get(same key): %s)" % (
-                    P.leaves_s(it["args"][1]), key_ok, P.leaves_s(it["args"][2]), val_ok and get_key_ok)
+                    P.leaves_s(pair[0]), key_ok, P.leaves_s(pair[1]), val_ok and get_key_ok)
         ctx.inst(rule, "arg1 = fresh map holding exactly the delegating key from the layout's key table", ok1, detail, rt["at"])
         # arg3: Some(step name)
         l3 = b.trace(args[3], (SOME, F0))
@@ -236,6 +248,10 @@ def check_summary(ctx, P, rule):
                             if s_.kind == "call" and callee_name(s_.data[1]) == "std::ops::Index::index" and \
                                     P.is_verified_layout(s_.data[1]["args"][0], (fld("steps"),)):
                                 out.append(which_index(b, P, s_.data[1]["args"][1]))
+                            elif s_.kind == "call" and callee_name(s_.data[1]) in ("slice::first", "slice::last", "std::slice::first", "std::slice::last",
+                                                                                   "core::slice::first", "core::slice::last") \
+                                    and s_.path == (SOME, F0) and P.is_verified_layout(s_.data[1]["args"][0], (fld("steps"),)):
+                                out.append(callee_name(s_.data[1]).split("::")[-1])
                             else:
                                 out.append("? (%s)" % leaf_s(b, s_))
                     else:
